@@ -287,7 +287,9 @@ class Engine:
         st = self.st
         self.path_label.append("ret")
         self.emit("canary", z3.BoolVal(False), clause="normal exit reachable", expect="sat")
-        env = {"result": ret}
+        # parameter names in postconditions denote the values at entry (the body may re-bind them)
+        env = {k: v for k, v in self.entry.env.items()}
+        env["result"] = ret
         for e in c.all_ensures(self.reg):
             g = self.clause_bool(e, st, self.entry, env)
             self.emit("post", g, clause=e)
@@ -316,7 +318,7 @@ class Engine:
         if not matched:
             self.emit("no-raise", z3.BoolVal(False), clause=f"{e.exc} must not escape")
         for cl in c.ensures_on_raise:
-            g = self.clause_bool(cl, self.st, self.entry, {})
+            g = self.clause_bool(cl, self.st, self.entry, dict(self.entry.env))
             self.emit("post-raise", g, clause=cl)
         if c.frame_on_raise:
             self.check_frame()
@@ -587,6 +589,10 @@ class Engine:
                 raise OutOfReach(f"{self.c.key}: store to undeclared field {obj.cls}.{t.attr}")
             self.heap_set(obj, t.attr, self.coerce(v, parse_sort(srt)))
         elif isinstance(t, (ast.Tuple, ast.List)):
+            if v.k == "opt" and v.t[1].k == "tuple":
+                if self.branch(v.t[0], "unpacknone"):
+                    raise PyRaise("TypeError")
+                v = v.t[1]
             if v.k != "tuple" or len(v.t) != len(t.elts):
                 raise OutOfReach(f"{self.c.key}: unpacking {v.k}")
             for tt, vv in zip(t.elts, v.t):
@@ -1312,6 +1318,110 @@ class Engine:
                     return -(m - andm) - 1   # x | ~m == ~(m & ~x)
         raise OutOfReach("symbolic bit operation on two unknowns")
 
+    # ---- struct: exact model for integer formats (B H I Q, b h i q, Ns, x) with explicit byte order
+    _STRUCT_SIZES = {"B": 1, "b": 1, "H": 2, "h": 2, "I": 4, "i": 4, "L": 4, "l": 4, "Q": 8, "q": 8}
+
+    def _struct_items(self, fmt: str):
+        import re
+        if not fmt or fmt[0] not in "!<>":
+            raise OutOfReach(f"struct format without explicit byte order: {fmt!r}")
+        big = fmt[0] in "!>"
+        items = []
+        for cnt, ch in re.findall(r"(\d*)([a-zA-Z?])", fmt[1:]):
+            if ch == "s":
+                items.append(("s", int(cnt or 1)))
+            elif ch == "x":
+                items.append(("x", int(cnt or 1)))
+            elif ch in self._STRUCT_SIZES:
+                for _ in range(int(cnt or 1)):
+                    items.append((ch, self._STRUCT_SIZES[ch]))
+            else:
+                raise OutOfReach(f"struct format char {ch}")
+        return big, items
+
+    def struct_size(self, fmt):
+        return sum(sz for _, sz in self._struct_items(fmt)[1])
+
+    def struct_unpack(self, fmt: str, data: V) -> V:
+        big, items = self._struct_items(fmt)
+        total = sum(sz for _, sz in items)
+        if data.k != "bytes":
+            raise OutOfReach("struct.unpack of non-bytes")
+        if self.branch(z3.Length(data.t) != total, "structlen"):
+            raise PyRaise("struct.error")
+        out = []
+        off = 0
+        for ch, sz in items:
+            if ch == "x":
+                off += sz
+                continue
+            if ch == "s":
+                out.append(mk_bytes(z3.SubSeq(data.t, off, sz)))
+                off += sz
+                continue
+            bs = [data.t[off + i] for i in range(sz)]
+            for i, b in enumerate(bs):
+                self.assume(z3.And(0 <= b, b <= 255))
+                self._link_extract(data.t, z3.IntVal(off + i))
+            if not big:
+                bs = bs[::-1]
+            val = bs[0]
+            for b in bs[1:]:
+                val = val * 256 + b
+            if ch.islower():
+                val = z3.If(val >= 2 ** (8 * sz - 1), val - 2 ** (8 * sz), val)
+            out.append(mk_int(val))
+            off += sz
+        return mk_tuple(out)
+
+    def _link_extract(self, t, i, depth=0):
+        """t[i] == base[off + i] for t = seq.extract(base, off, len): stated explicitly, because neither solver unfolds
+        nth-of-extract reliably. Valid whenever 0 <= off and i < len(t)."""
+        if depth > 4 or not z3.is_app(t) or t.decl().kind() != z3.Z3_OP_SEQ_EXTRACT:
+            return
+        base, off, ln = t.arg(0), t.arg(1), t.arg(2)
+        self.assume(z3.Implies(z3.And(off >= 0, 0 <= i, i < z3.Length(t)), t[i] == base[off + i]))
+        self._link_extract(base, z3.simplify(off + i), depth + 1)
+
+    def struct_pack(self, fmt: str, vals: List[V]) -> V:
+        big, items = self._struct_items(fmt)
+        vi = 0
+        parts = []
+        for ch, sz in items:
+            if ch == "x":
+                parts.extend([z3.Unit(z3.IntVal(0))] * sz)
+                continue
+            v = vals[vi]
+            vi += 1
+            if ch == "s":
+                if v.k != "bytes":
+                    raise OutOfReach("struct 's' of non-bytes")
+                # struct pads/truncates to the field size; the model requires the exact size
+                if self.branch(z3.Length(v.t) != sz, "structs"):
+                    raise OutOfReach("struct 's' with a value of another length (padding/truncation not modelled)")
+                parts.append(v.t)
+                continue
+            x = self.as_int(v)
+            lo, hi = (-(2 ** (8 * sz - 1)), 2 ** (8 * sz - 1) - 1) if ch.islower() else (0, 2 ** (8 * sz) - 1)
+            if not self.branch(z3.And(lo <= x, x <= hi), "structrange"):
+                raise PyRaise("struct.error")
+            u = z3.If(x < 0, x + 2 ** (8 * sz), x) if ch.islower() else x
+            bs = []
+            for i in range(sz):      # little-endian digits via definitional variables (linear)
+                d = z3.Int(fresh_name("pb"))
+                bs.append(d)
+            acc = bs[sz - 1]
+            for i in range(sz - 2, -1, -1):
+                acc = acc * 256 + bs[i]
+            self.assume(z3.And([z3.And(0 <= d, d <= 255) for d in bs] + [acc == u]))
+            order = bs[::-1] if big else bs
+            parts.extend(z3.Unit(d) for d in order)
+        if vi != len(vals):
+            raise PyRaise("struct.error")
+        if not parts:
+            return mk_bytes(b"")
+        return mk_bytes(z3.Concat(*parts) if len(parts) > 1 else parts[0])
+
     def bit_of(self, x, k: int):
         key = (x.hash(), k)
         cache = self.__dict__.setdefault("_bitcache", {})
@@ -1404,14 +1514,28 @@ class Engine:
     def ev_Subscript(self, n):
         base = self.ev(n.value)
         sl = n.slice
+        if base.k == "none" and self.spec_mode:
+            return NONE
+        if base.k == "opt":
+            if not self.spec_mode and self.branch(base.t[0], "subnone"):
+                raise PyRaise("TypeError")
+            base = base.t[1]
         if isinstance(sl, ast.Slice):
             if sl.step is not None:
                 raise OutOfReach("slice step")
             if base.k == "bytes":
                 ln = z3.Length(base.t)
-                lo = self._slice_idx(sl.lower, ln, 0)
-                hi = self._slice_idx(sl.upper, ln, None)
-                return mk_bytes(z3.SubSeq(base.t, lo, z3.If(hi > lo, hi - lo, 0)))
+                lo = z3.simplify(self._slice_idx(sl.lower, ln, 0))
+                hi = z3.simplify(self._slice_idx(sl.upper, ln, None))
+                t = z3.SubSeq(base.t, lo, z3.simplify(z3.If(hi > lo, hi - lo, 0)))
+                if not self.spec_mode:
+                    # word-equation view of the slice (what the sequence solvers reason with best):
+                    # base == p ++ slice ++ q with |p| == lo
+                    pfx = z3.Const(fresh_name("slp"), IntSeq)
+                    sfx = z3.Const(fresh_name("slq"), IntSeq)
+                    self.assume(z3.And(base.t == z3.Concat(pfx, t, sfx), z3.Length(pfx) == lo,
+                                       z3.Length(t) == z3.If(hi > lo, hi - lo, 0)))
+                return mk_bytes(t)
             if base.k == "tuple":
                 lo = self._const_idx(sl.lower, 0, len(base.t))
                 hi = self._const_idx(sl.upper, len(base.t), len(base.t))
@@ -1436,6 +1560,7 @@ class Engine:
                 return mk_int(base.t[i])      # clauses index mathematically (authors guard 0 <= i < len)
             el = base.t[z3.If(i < 0, ln + i, i)]
             self.assume(z3.And(0 <= el, el <= 255))
+            self._link_extract(base.t, z3.simplify(z3.If(i < 0, ln + i, i)))
             return mk_int(el)
         if base.k == "ilist":
             a, nn, _ = base.t
@@ -1464,6 +1589,9 @@ class Engine:
         if node is None:
             return z3.IntVal(0) if default == 0 else ln
         i = self.as_int(self.ev(node))
+        isimp = z3.simplify(i)
+        if z3.is_int_value(isimp) and isimp.as_long() >= 0:
+            return z3.If(isimp > ln, ln, isimp)
         i = z3.If(i < 0, z3.If(ln + i < 0, 0, ln + i), i)
         return z3.If(i > ln, ln, i)
 
@@ -1521,6 +1649,16 @@ class Engine:
             sf = self.reg.spec_fn(nm) if self.spec_mode else None
             if sf is not None:
                 return sf.apply(self, [self.ev(a) for a in n.args])
+        if d in ("struct.unpack", "struct.pack") and n.args and isinstance(n.args[0], ast.Constant):
+            if d == "struct.unpack":
+                return self.struct_unpack(n.args[0].value, self.ev(n.args[1]))
+            return self.struct_pack(n.args[0].value, [self.ev(a) for a in n.args[1:]])
+        if d is not None and d.endswith((".pack", ".unpack")) and d.rsplit(".", 1)[0] in self.c.consts \
+                and isinstance(self.c.consts[d.rsplit(".", 1)[0]], str):
+            fmt = self.c.consts[d.rsplit(".", 1)[0]]       # a struct.Struct constant whose format is read from the live class
+            if d.endswith(".unpack"):
+                return self.struct_unpack(fmt, self.ev(n.args[0]))
+            return self.struct_pack(fmt, [self.ev(a) for a in n.args])
         # externals by dotted pattern
         if d is not None and d in self.c.externals:
             return self.ext_call(self.c.externals[d], d, n)
@@ -2111,6 +2249,9 @@ class Engine:
             env = {"result": res}
             for i, a in enumerate(args):
                 env[f"arg{i}"] = a
+            for kw_ in n.keywords:
+                if kw_.arg:
+                    env[f"kw_{kw_.arg}"] = self.ev(kw_.value)
             for p in ([post] if isinstance(post, str) else post):
                 self.assume(self.clause_bool(p, self.st, self.st, env))
         return res
